@@ -289,6 +289,10 @@ class MessageBatch:
 
     def drain_ready(self):
         """Compress batch to be ready for send"""
+        # The record count is final from here on: the sequence numbers of the
+        # partition were advanced by it, so a user-held builder passed to
+        # `send_batch()` must not take more records until it is built.
+        self._builder.close()
         if not self._drain_waiter.done():
             self._drain_waiter.set_result(None)
         self._retry_count += 1
